@@ -56,6 +56,9 @@ M = [
   '    startpoints = c.startpoints()\n    solver, variables = construct_solver(c, assumptions)',
   '    startpoints = c.inputs()\n    solver, variables = construct_solver(c, assumptions)'),
  ("C08-drop-flush", "C08", "circuitgraph/sat.py", '        tmp.write(dimacs)\n        tmp.flush()\n', '        tmp.write(dimacs)\n'),
+ ("C08-explicit-sampling-set-ignored", "C08", "circuitgraph/sat.py",
+  '    # specify sampling set\n    enc_inps = " ".join([str(variables.id(n)) for n in startpoints])',
+  '    # specify sampling set\n    enc_inps = " ".join([str(variables.id(n)) for n in c.startpoints()])'),
  ("C08-sigprob-wrong-denominator", "C08", "circuitgraph/props.py",
   'return count / (2 ** len(subc.startpoints()))', 'return count / (2 ** len(c.startpoints()))'),
  ("C09-initial-at-last-step", "C09", "circuitgraph/tx.py",
